@@ -19,7 +19,7 @@ from ariadne_codegen.client_generators import constants as K
 
 V.REG.register(EX.ParsingError, ["args"])
 V.REG.register(G.ArgumentNode, ["name", "value"], build=lambda name=None, value=None: G.ArgumentNode(name=name or G.NameNode(value="a"), value=value or G.StringValueNode(value="v")))
-V.REG.register(RT.ResultTypesGenerator, ["_imports"])
+from . import lib_generator as _lg      # noqa: E402,F401  (registers ResultTypesGenerator)
 ARG_VALUE = OneOf(Cls(G.StringValueNode, value=Str), Cls(G.IntValueNode, value=Str), Cls(G.BooleanValueNode, value=Bool),
                   Cls(G.EnumValueNode, value=GQ.NAME), Cls(G.NullValueNode))
 ARGUMENT = Cls(G.ArgumentNode, name=GQ.NAME_NODE, value=ARG_VALUE)
